@@ -347,8 +347,17 @@ func runC17(p params) error {
 				}
 			case 5: // hostile: out-of-bounds / oversized
 				f := c17Frag{16, 10, 7, 8, 5, rb(5)}
-				if r.IntN(2) == 0 {
+				switch r.IntN(6) {
+				case 0:
 					f = c17Frag{16, 70000, 7, 0, 3, rb(3)}
+				case 1: // one byte beyond the announced length
+					f = c17Frag{16, 10, 7, 8, 3, rb(3)}
+				case 2: // offset 0, one byte longer than announced
+					f = c17Frag{16, 10, 7, 0, 11, rb(11)}
+				case 3: // exactly fits (legal)
+					f = c17Frag{16, 10, 7, 8, 2, rb(2)}
+				case 4: // a long announced length, one byte beyond
+					f = c17Frag{16, 2000, 7, 1995, 6, rb(6)}
 				}
 				fs = append(fs, f)
 			}
